@@ -417,8 +417,10 @@ func (i *Instance) Parameter(nodeId string) Parameter {
 }
 
 func (i *Instance) UpdateParameter(nodeId string, data []byte) (bool, error) {
+	verifYield("graph:update:lock")
 	i.producerLock.Lock()
 	defer i.producerLock.Unlock()
+	verifYield("graph:update:locked")
 
 	r, err := i.Parameter(nodeId).ApplyMessage(data)
 	i.incModelVersion()
@@ -426,8 +428,10 @@ func (i *Instance) UpdateParameter(nodeId string, data []byte) (bool, error) {
 }
 
 func (i *Instance) ParameterData(nodeId string) []byte {
+	verifYield("graph:read:lock")
 	i.producerLock.Lock()
 	defer i.producerLock.Unlock()
+	verifYield("graph:read:locked")
 	return i.Parameter(nodeId).ToMessage()
 }
 
@@ -518,8 +522,10 @@ func (i *Instance) Artifact(producerName string) artifact.Artifact {
 		panic(fmt.Errorf("no producer registered for: %s", producerName))
 	}
 
+	verifYield("graph:artifact:lock")
 	i.producerLock.Lock()
 	defer i.producerLock.Unlock()
+	verifYield("graph:artifact:locked")
 
 	return producer.Value()
 }
